@@ -19,9 +19,16 @@ Definition C02_ok (h : list (op N)) (every : bool) (o : res (list N)) : bool :=
   | _ => false                       (* a building or observing call panicked *)
   end.
 
-Definition C02_case (c : list (op N) * bool * res (list N)) : N :=
+Definition C02_case1 (c : list (op N) * bool * res (list N)) : N :=
   let '(h, every, o) := c in
   code (res_eqb bytes_eqb (Ok (if every then model_dump h else model_dump_last h)) o) (C02_ok h every o).
+
+(* A case is one Go program; it has one (history, every, dump) per table it
+   builds.  With two tables that pass a *Row between them, each table's history
+   holds the calls on that table, the Row.Add calls on the rows it can reach,
+   and OtherAddRow where the other table's AddRow takes (or has held) a row. *)
+Definition C02_case (cs : list (list (op N) * bool * res (list N))) : N :=
+  fold_left (fun acc c => N.lor acc (C02_case1 c)) cs 0%N.
 
 (* for replays: well-formedness of the history, its length, whether model and
    spec agree on it, and - for a short history - the model's and the spec's
@@ -29,7 +36,8 @@ Definition C02_case (c : list (op N) * bool * res (list N)) : N :=
    case description) *)
 Definition hist_size (h : list (op N)) : nat :=
   fold_left (fun n o => match o with AddRowItems xs | AddHeaders xs => S (n + length xs) | _ => S n end) h 0.
-Definition C02_model (c : list (op N) * bool * res (list N)) :=
+Definition C02_model1 (c : list (op N) * bool * res (list N)) :=
   let h := fst (fst c) in
   (wf_histb h, hist_size h, bytes_eqb (model_dump_last h) (spec_dump_last h),
    if hist_size h <=? 40 then Some (observe (run h), expected (spec_run h)) else None).
+Definition C02_model (cs : list (list (op N) * bool * res (list N))) := map C02_model1 cs.
